@@ -506,6 +506,10 @@ def pick(menu, i, default=_NO):
     return default
 
 
+# concrete alphabets for the harnesses that keep only the value symbolic (an implementation that builds a pattern,
+# a table or a set from the alphabet then stays analysable): regex metacharacters, ranges-lookalikes, newline
+ALPHA_MENU = ("ab", "0123456789", "a-c", "^a", "]\\[", "a\n", ".", "$a", "")
+
 UUIDS4 = (UUID("8a2f1d0c-5b7e-4c3a-9f10-2d4e6a8b0c1e"), UUID("00000000-0000-4000-8000-000000000000"))
 UUID_OTHER = (UUID("6ba7b810-9dad-11d1-80b4-00c04fd430c8"),      # v1
               UUID("6fa459ea-ee8a-3ca4-894e-db77e160355e"),      # v3
